@@ -1174,12 +1174,24 @@ pub async fn quiesce_and_check(world: &mut NetWorld, s: &Value, rec: &mut Record
                     Some(e) => format!("sync_fails:{e}"),
                     None => "despite_successful_syncs".to_string(),
                 };
-                if dup_kinds.contains(kind) {
-                    class.push_str("/log_holds_identical_events");
-                } else if reordered_kinds.contains(kind) {
-                    class.push_str("/same_events_different_order");
-                } else if same_index_kinds.contains(kind) {
-                    class.push_str("/identical_event_at_same_index_after_divergence");
+                let _ = (&dup_kinds, &reordered_kinds, &same_index_kinds);
+                let rc = root_cause_evidence(world).await;
+                let mut tag = if kind == "content" { rc.tag_any() } else { rc.tag(kind) };
+                if kind == "folder" && tag.is_empty() && by_kind.contains_key("account") {
+                    // a folder that is absent (or behind) on a replica whose
+                    // account log has not converged either: the folder follows
+                    // the account log, so does its root cause
+                    tag = rc.tag("account");
+                }
+                class.push_str(tag);
+                if kind == "folder" {
+                    let mut never = vec![];
+                    for d in &world.devices {
+                        never.extend(folders_recorded_but_not_imported(&d.dev).await);
+                    }
+                    if !never.is_empty() {
+                        class.push_str("/folder_in_account_log_never_imported");
+                    }
                 }
                 if world.devices.iter().any(|d| d.own.rewritten) {
                     class.push_str("/after_history_rewrite");
@@ -1271,6 +1283,153 @@ pub async fn converged(world: &mut NetWorld) -> Option<Vec<String>> {
     }
 }
 
+/// Folders that a device's account log says exist (CreateFolder without a
+/// later DeleteFolder) but that the device does not hold.
+pub async fn folders_recorded_but_not_imported(dev: &Device) -> Vec<String> {
+    if dev.account.is_none() {
+        return vec![];
+    }
+    let a = dev.lock().await;
+    let mut live: BTreeSet<VaultId> = BTreeSet::new();
+    if let Ok(l) = a.account_log().await {
+        let l = l.read().await;
+        let stream = l.event_stream(false).await;
+        pin_mut!(stream);
+        while let Some(Ok((_, ev))) = stream.next().await {
+            match ev {
+                sos_core::events::AccountEvent::CreateFolder(id, _) => {
+                    live.insert(id);
+                }
+                sos_core::events::AccountEvent::DeleteFolder(id) => {
+                    live.remove(&id);
+                }
+                _ => {}
+            }
+        }
+    }
+    let have: BTreeSet<VaultId> = match a.list_folders().await {
+        Ok(f) => f.iter().map(|s| *s.id()).collect(),
+        Err(_) => return vec![],
+    };
+    live.difference(&have).map(|id| id.to_string()).collect()
+}
+
+/// Mechanical evidence of the two recorded design-level root causes, per log
+/// kind, over the current logs of all replicas and the commits each device
+/// made itself:
+///  * `independent`: an event hash that was committed independently more than
+///    once (by two devices, twice by one device, or again after it was already
+///    shared history). Events are addressed by the hash of their bytes, so such
+///    events are indistinguishable to merge and scan.
+///  * `same_index`: two replicas' logs diverge and later hold the same event at
+///    the same index: the ancestor scan (single-leaf proofs checked against the
+///    local leaves) accepts that position as common history.
+pub struct RootCause {
+    pub independent: BTreeSet<String>,
+    pub same_index: BTreeSet<String>,
+    pub reordered: BTreeSet<String>,
+    pub dup_in_log: BTreeSet<String>,
+}
+
+pub async fn root_cause_evidence(world: &NetWorld) -> RootCause {
+    let mut rc = RootCause {
+        independent: BTreeSet::new(),
+        same_index: BTreeSet::new(),
+        reordered: BTreeSet::new(),
+        dup_in_log: BTreeSet::new(),
+    };
+    // independent identical commits
+    let mut keys: BTreeSet<String> = world.base.keys().cloned().collect();
+    for d in &world.devices {
+        keys.extend(d.own.logs.keys().cloned());
+    }
+    for k in &keys {
+        let mut count: BTreeMap<[u8; 32], usize> = BTreeMap::new();
+        for r in world.base.get(k).map(|v| v.as_slice()).unwrap_or(&[]) {
+            *count.entry(r.commit).or_default() += 1;
+        }
+        for d in &world.devices {
+            for r in d.own.logs.get(k).map(|v| v.as_slice()).unwrap_or(&[]) {
+                *count.entry(r.commit).or_default() += 1;
+            }
+        }
+        if count.values().any(|n| *n > 1) {
+            rc.independent.insert(log_kind(k).to_string());
+        }
+    }
+    let mut all: Vec<LogSet> = vec![];
+    if let Ok(l) = server_logs(world).await {
+        all.push(l);
+    }
+    for d in &world.devices {
+        if d.dev.account.is_none() {
+            continue;
+        }
+        if let Ok(l) = device_logs(&d.dev).await {
+            all.push(l);
+        }
+    }
+    for ls in &all {
+        for (k, v) in ls {
+            let mut seen = BTreeSet::new();
+            if v.iter().any(|r| !seen.insert(r.commit)) {
+                rc.dup_in_log.insert(log_kind(k).to_string());
+            }
+        }
+    }
+    for x in 0..all.len() {
+        for y in (x + 1)..all.len() {
+            for (k, a) in &all[x] {
+                if let Some(b) = all[y].get(k) {
+                    let lcp = a.iter().zip(b.iter()).take_while(|(p, q)| p.commit == q.commit).count();
+                    let n = a.len().min(b.len());
+                    if lcp < n && (lcp..n).any(|i| a[i].commit == b[i].commit) {
+                        rc.same_index.insert(log_kind(k).to_string());
+                    }
+                    if a != b {
+                        let mut p: Vec<_> = a.iter().map(|r| r.commit).collect();
+                        let mut q: Vec<_> = b.iter().map(|r| r.commit).collect();
+                        p.sort();
+                        q.sort();
+                        if p == q {
+                            rc.reordered.insert(log_kind(k).to_string());
+                        }
+                    }
+                }
+            }
+        }
+    }
+    rc
+}
+
+impl RootCause {
+    /// The tag for a violation that concerns logs of `kind` ("" when none of
+    /// the recorded root causes is in evidence).
+    pub fn tag(&self, kind: &str) -> &'static str {
+        if self.independent.contains(kind) {
+            "/log_holds_identical_events"
+        } else if self.same_index.contains(kind) {
+            "/identical_event_at_same_index_after_divergence"
+        } else if self.reordered.contains(kind) {
+            "/same_events_different_order"
+        } else if self.dup_in_log.contains(kind) {
+            "/log_holds_duplicates_made_by_merge"
+        } else {
+            ""
+        }
+    }
+    /// For differences in served content (names, secrets): any log kind.
+    pub fn tag_any(&self) -> &'static str {
+        if !self.independent.is_empty() {
+            "/log_holds_identical_events"
+        } else if !self.same_index.is_empty() {
+            "/identical_event_at_same_index_after_divergence"
+        } else {
+            ""
+        }
+    }
+}
+
 /// C05: converged log == base + max-union of the devices' own commits.
 pub async fn check_union(world: &mut NetWorld, rec: &mut Recorder, did_converge: bool) {
     if world.devices.iter().any(|d| d.own.rewritten) {
@@ -1290,6 +1449,7 @@ pub async fn check_union(world: &mut NetWorld, rec: &mut Recorder, did_converge:
     for d in &world.devices {
         keys.extend(d.own.logs.keys().cloned());
     }
+    let rc = root_cause_evidence(world).await;
     for k in keys {
         let base = world.base.get(&k).cloned().unwrap_or_default();
         let mut expect: BTreeMap<[u8; 32], usize> = BTreeMap::new();
@@ -1338,10 +1498,18 @@ pub async fn check_union(world: &mut NetWorld, rec: &mut Recorder, did_converge:
                 .map(|(h, n)| format!("{}x{}(expected {})", &hex::encode(h)[..6], n, expect.get(h).copied().unwrap_or(0)))
                 .collect();
             let phase = if did_converge { "converged" } else { "final" };
+            let rc_tag = rc.tag(log_kind(&k));
             if !lost.is_empty() && did_converge {
+                // an event that was committed more than once (identical bytes)
+                // and survives fewer times
+                let collapsed = expect
+                    .iter()
+                    .filter(|(h, n)| got.get(*h).copied().unwrap_or(0) < **n)
+                    .all(|(h, n)| *n > 1 && got.get(h).copied().unwrap_or(0) >= 1);
+                let tag = if collapsed { "/identical_events_collapsed" } else { rc_tag };
                 rec.violate(
                     "C05",
-                    &format!("C05/{phase}/event_lost/{}", log_kind(&k)),
+                    &format!("C05/{phase}/event_lost{tag}/{}", log_kind(&k)),
                     format!("{name} log {k}: committed events missing after convergence: {}", lost.join(",")),
                 );
             }
@@ -1362,6 +1530,8 @@ pub async fn check_union(world: &mut NetWorld, rec: &mut Recorder, did_converge:
                     });
                 if !foreign && all_independent {
                     class.push_str("/identical_independent_events_kept_twice");
+                } else {
+                    class.push_str(rc_tag);
                 }
                 rec.violate(
                     "C05",
